@@ -179,7 +179,44 @@ sys.exit(1 if bad else 0)
 '''
 
 
+EVALUATOR_HISTORY = r'''
+import subprocess, sys, hashlib
+PROG = r"""
+import sys
+import numpy as np, onnx
+from onnx import helper, TensorProto, numpy_helper
+import onnxscript.optimizer
+def squeeze_model(opset):
+    c = helper.make_node("Constant", [], ["c"], value=numpy_helper.from_array(np.zeros((1, 2, 3, 1), np.float32), "c"))
+    if opset >= 13:
+        ax = helper.make_node("Constant", [], ["ax"], value=numpy_helper.from_array(np.array([0], np.int64), "ax"))
+        nodes = [c, ax, helper.make_node("Squeeze", ["c", "ax"], ["s"])]
+    else:
+        nodes = [c, helper.make_node("Squeeze", ["c"], ["s"], axes=[0])]
+    nodes.append(helper.make_node("Add", ["s", "x"], ["y"]))
+    g = helper.make_graph(nodes, "g", [helper.make_tensor_value_info("x", TensorProto.FLOAT, [1])], [helper.make_tensor_value_info("y", TensorProto.FLOAT, None)])
+    return helper.make_model(g, opset_imports=[helper.make_opsetid("", opset)], ir_version=8)
+history = [int(a) for a in sys.argv[1:]]
+for v in history[:-1]:
+    onnxscript.optimizer.optimize(squeeze_model(v))
+out = onnxscript.optimizer.optimize(squeeze_model(history[-1]))
+import hashlib
+print(hashlib.sha256(out.SerializeToString()).hexdigest(), [list(i.dims) for i in out.graph.initializer])
+"""
+def run(*versions):
+    return subprocess.run([sys.executable, "-c", PROG] + [str(v) for v in versions], capture_output=True, text=True).stdout.strip().splitlines()[-1]
+fresh = run(11)
+after = run(18, 13, 11)
+if fresh != after:
+    print(f"optimize() of an opset-11 model (Squeeze with an axes attribute): fresh process -> {fresh}; after optimizing opset-18 and opset-13 models in the same process -> {after}")
+    sys.exit(1)
+sys.exit(0)
+'''
+
+
 def replay(ob):
+    if "reference_evaluator" in ob["name"]:
+        return EVALUATOR_HISTORY
     if "C14.to_model_proto." in ob["name"]:
         return TO_MODEL_PROTO
     if "C14.folding.provenance" in ob["name"]:
